@@ -1,1 +1,4 @@
-
+//! Shared by both engines: PRNG, reference model, input generation.
+pub mod dg;
+pub mod gen;
+pub mod rng;
